@@ -821,6 +821,8 @@ def _cond_build(c: t.Tuple[t.Any, ...]) -> t.Any:
         return A.val_range(min=c[1], max=c[2])
     if k == 'len_range':
         return A.len_range(min=c[1], max=c[2])
+    if k == 'true':
+        return A.Condition(_always, name='anything')
     if k == 'even':
         return A.Condition(_even, name='even')
     if k == 'raises':
@@ -848,6 +850,10 @@ def _cond_build(c: t.Tuple[t.Any, ...]) -> t.Any:
 
 def _even(v):
     return v % 2 == 0
+
+
+def _always(v):
+    return True
 
 
 class _UserGt:
@@ -917,6 +923,8 @@ def cond_eval(c: t.Tuple[t.Any, ...], x: t.Any) -> bool:
         if c[2] is not None:
             ok = ok and len(x) <= c[2]
         return ok
+    if k == 'true':
+        return True
     if k == 'even':
         return x % 2 == 0
     if k == 'raises':
